@@ -89,7 +89,7 @@ def run(chk, cases_override=None):
                 "panicking callbacks and unknown propagation values; a smaller stream of trees under coordinator faults and "
                 "cancellation (tie + intactness only). non-trivial = nested (depth >= 2) and at least one request reached the "
                 "coordinator; distinct by case inputs",
-        "traces_validated_against_impl": len(cases) - len(mism),
+        "traces_validated_against_impl": len(cases) - len(mism) + (carrier or {}).get("traces_validated_against_impl", 0),
         "oracle_failures": len(failing),
         "within_theorem_domain": sum(1 for c in cases if T.ok_world(c)),
         "depth_distribution": dict(collections.Counter(depth(c["tree"]) for c in cases)),
